@@ -13,6 +13,12 @@ open Note
 #print axioms C08_no_lost_wakeup
 #print axioms C08_waiters_released
 #print axioms C08_complete_released
+#print axioms C08_complete_full_holds
+#print axioms Reachable.invJ
+#print axioms Reachable.invLive
+#print axioms Reachable.invScan
+#print axioms no_stuck_state
+#print axioms no_wait_blocked_all
 #print axioms C08_child_iff_parent
 #print axioms C08_children_nodup
 #print axioms anc_of_chain
